@@ -11,7 +11,8 @@
 From Coq Require Import ZArith List Lia.
 From stdpp Require Import gmap.
 From HV Require Import Liquid.SplitModel Liquid.VestingLite Liquid.KeeperModel
-                       Liquid.SplitProofs Liquid.VestingLiteProofs Liquid.KeeperProofs.
+                       Liquid.SplitProofs Liquid.VestingLiteProofs Liquid.KeeperProofs
+                       Liquid.TimeProofs.
 Import ListNotations.
 Local Open Scope Z_scope.
 
@@ -284,3 +285,114 @@ Theorem C11_nonvacuous_split :
   /\ residue_of [(100, 10); (100, 0); (100, 1); (5, 1)] 7 = 2.
 Proof. exact ex_split_nonvacuous. Qed.
 Print Assumptions C11_nonvacuous_split.
+
+(** ** Redeem into an EXISTING vesting account, over time *)
+
+(** The merge the code performs (addGrant: union of the lockup events, union of
+    the vesting events, start = min, end = max(new lockup end, new vesting end)),
+    for ALL accounts, grants, amounts and times: what GetLockedUpCoins of the
+    merged account reports is at least what the account's own lockup schedule
+    still holds plus what the redeemed share still holds at its ORIGINAL absolute
+    times; the bank's LockedCoins is at least that; in terms of the code's own
+    getters (away from the two start seconds) locked(merged) >= locked(old
+    account) + locked(share as its own account); in particular after the END of
+    the account's own schedule, where the old account locks nothing, the merged
+    account still locks all of the share that is not yet due. *)
+Theorem C11_merge_keeps_both_locked :
+  forall va gs gl gv c va',
+    acct_ok va -> grant_ok gl gv c -> add_grant true va gs gl gv c = Some va' ->
+    forall t,
+      (a_orig va - unlocked_ev va t) + (c - ev gs gl t) <= lockedup_at va' t /\
+      lockedup_at va' t <= locked_coins va' t /\
+      (t <> a_start va -> t <> gs ->
+         lockedup_at va t + lockedup_at (new_acct gs c gl gv) t <= lockedup_at va' t) /\
+      (a_start va < a_end va <= t -> lockedup_at va t = 0 /\ c - ev gs gl t <= locked_coins va' t).
+Proof. exact merge_locks_both. Qed.
+Print Assumptions C11_merge_keeps_both_locked.
+
+(** With end := max(OLD account end, end of the merged VESTING periods) this is
+    false: the merged period lists are the same, but ReadSchedule's shortcut
+    "t >= end: everything is unlocked" frees the 500 coins of a share due at 2000
+    already at the account's old end 1100. *)
+Theorem C11_merge_end_rule_refuted :
+  exists v_old v_new,
+    add_grant_oldend er_acct 1000 er_lock er_vest 500 = Some v_old /\
+    add_grant true er_acct 1000 er_lock er_vest 500 = Some v_new /\
+    acct_ok er_acct /\ grant_ok er_lock er_vest 500 /\
+    a_lock v_old = a_lock v_new /\ a_vest v_old = a_vest v_new /\
+    a_start v_old = a_start v_new /\ a_orig v_old = a_orig v_new /\
+    a_end er_acct = 1100 /\ a_end v_old = 1100 /\ a_end v_new = 2000 /\
+    (a_orig er_acct - unlocked_ev er_acct 1100) + (500 - ev 1000 er_lock 1100) = 500 /\
+    (a_orig er_acct - unlocked_ev er_acct 1999) + (500 - ev 1000 er_lock 1999) = 500 /\
+    locked_coins v_old 1099 = 600 /\ locked_coins v_old 1100 = 0 /\ locked_coins v_old 1999 = 0 /\
+    locked_coins v_new 1099 = 600 /\ locked_coins v_new 1100 = 500 /\ locked_coins v_new 1999 = 500 /\
+    locked_coins v_new 2000 = 0.
+Proof. exact merge_end_rule_refuted. Qed.
+Print Assumptions C11_merge_end_rule_refuted.
+
+(** Over all histories (set-up, liquidate, transfer, partial / full redeem into
+    fresh, ordinary and existing vesting accounts incl. the liquidator itself, in
+    any order, failing messages, probes), for every account and every time from
+    the last redeem on: the obligations written down independently of the
+    accounts' records ([step_obl]: + the set-up lockup schedule, - every
+    liquidated token's schedule as recorded at its creation, + every redeemed
+    share at the token's start time) are exactly what the account's lockup
+    schedule holds locked, which GetLockedUpCoins and the bank's LockedCoins never
+    undercut. *)
+Theorem C11_no_early_unlock_obligations :
+  forall ops a tau,
+    redeems_by ops tau ->
+    let s := run true ops init in
+    let g := snd (run_obl true ops init []) in
+    need g a tau = locked_ev s a tau /\
+    locked_ev s a tau <= locked_real s a tau /\
+    locked_real s a tau <= locked_bank s a tau.
+Proof. exact no_early_unlock_obligations. Qed.
+Print Assumptions C11_no_early_unlock_obligations.
+
+(** Non-vacuity: the short token first, then the long one, into the same fresh
+    account; between the two ends all of the long token's coins are locked. *)
+Theorem C11_two_tokens_same_account :
+  run_codes true tw_history init = [OK; OK; OK; OK; OK; OK; OK; OK] /\
+  (let s5 := run true (firstn 5 tw_history) init in
+   exists v, accts s5 !! 3%N = Some v /\ a_end v = 1040) /\
+  (let s := run true tw_history init in
+   let g := snd (run_obl true tw_history init []) in
+   redeems_by tw_history 1030 /\
+   (exists v, accts s !! 3%N = Some v /\ a_end v = 1300) /\
+   map (fun t => need g 3%N t) [1030; 1039; 1040; 1099; 1100; 1199; 1200; 1299; 1300]
+     = [80; 80; 60; 60; 40; 40; 20; 20; 0] /\
+   map (locked_bank s 3%N) [1030; 1039; 1040; 1099; 1100; 1199; 1200; 1299; 1300]
+     = [80; 80; 60; 60; 40; 40; 20; 20; 0] /\
+   need g 0%N 1050 = 30 /\ locked_bank s 0%N 1050 = 30).
+Proof. exact tw_history_ok. Qed.
+Print Assumptions C11_two_tokens_same_account.
+
+(** The bank's LockedCoins also counts the account's own UNVESTED coins.  While the
+    account's own vesting is not behind its own lockup (in particular once it is
+    fully vested) the merged account locks, by the bank's reckoning, everything the
+    bank held locked of the own grant plus the unreleased part of the share ... *)
+Theorem C11_merge_bank_locked_partial :
+  forall va gs gl gv c va' t,
+    acct_ok va -> grant_ok gl gv c -> add_grant true va gs gl gv c = Some va' ->
+    unlocked_ev va t <= vested_ev va t ->
+    locked_ref va t + (c - ev gs gl t) <= locked_coins va' t.
+Proof. exact merge_bank_locked. Qed.
+Print Assumptions C11_merge_bank_locked_partial.
+
+(** ... without that hypothesis it does not (the clawback account's spendable
+    amount is min(unlocked, vested) over the merged schedules): own coins that are
+    unlocked but unvested and a share that is vested but locked free each other.
+    The lockup obligations of C11 are still met (last clause); what becomes
+    spendable early are coins the bank held back as unvested. *)
+Theorem C11_merge_bank_locked_unvested_refuted :
+  exists va',
+    add_grant true uv_acct 1100 [(900, 50)] [(0, 50)] 50 = Some va' /\
+    acct_ok uv_acct /\ grant_ok [(900, 50)] [(0, 50)] 50 /\
+    locked_coins uv_acct 1500 = 100 /\ locked_ref uv_acct 1500 = 100 /\
+    50 - ev 1100 [(900, 50)] 1500 = 50 /\
+    locked_coins va' 1500 = 100 /\
+    ~ (locked_ref uv_acct 1500 + (50 - ev 1100 [(900, 50)] 1500) <= locked_coins va' 1500) /\
+    (a_orig uv_acct - unlocked_ev uv_acct 1500) + (50 - ev 1100 [(900, 50)] 1500) <= locked_coins va' 1500.
+Proof. exact merge_bank_locked_unvested_refuted. Qed.
+Print Assumptions C11_merge_bank_locked_unvested_refuted.
